@@ -19,7 +19,7 @@ enum Kind { KVol, KClm, KWav };
 std::vector<uint8_t> vol_seed(unsigned which, std::vector<size_t>* fields = nullptr) {
 	std::vector<refvol::Member> ms; refvol::EncodeOpts o;
 	auto mem = [](const char* n, std::vector<uint8_t> p) { refvol::Member m; m.name = n; m.payload = std::move(p); m.sizeField = uint32_t(m.payload.size()); return m; };
-	switch (which % 5) {
+	switch (which % 6) {
 	case 0: break;
 	case 1: ms.push_back(mem("a.txt", {1, 2, 3, 4, 5})); break;
 	case 2: {
@@ -30,6 +30,11 @@ std::vector<uint8_t> vol_seed(unsigned which, std::vector<size_t>* fields = null
 		ms.push_back(mem("dd.dat", std::vector<uint8_t>(33, 0x5A)));
 		break; }
 	case 3: ms.push_back(mem("x1", {1})); ms.push_back(mem("x2", {2, 2})); o.unusedSlots = 2; o.unusedFill = 0x11223344; break;
+	case 5: {   // the LAST member is compressed: truncations cut into its block only
+		ms.push_back(mem("head.txt", {4, 5, 6, 7, 8, 9}));
+		std::vector<reflzh::Token> toks; for (unsigned k = 0; k < 90; ++k) toks.push_back({false, uint8_t('A' + k % 23), 0, 0}); toks.push_back({true, 0, 40, 23}); for (unsigned k = 0; k < 30; ++k) toks.push_back({false, uint8_t(k * 9), 0, 0});
+		std::vector<uint8_t> plain; refvol::Member l; l.name = "tail.lzh"; l.payload = reflzh::encode(toks, plain); l.comp = refvol::CompLZH; l.sizeField = uint32_t(plain.size()); ms.push_back(l);
+		break; }
 	default: for (int i = 0; i < 6; ++i) ms.push_back(mem((std::string("f") + char('0' + i) + ".map").c_str(), std::vector<uint8_t>(size_t(i * 5), uint8_t(i)))); o.namePadWords = 1; break;
 	}
 	std::vector<refvol::Extent> ext;
@@ -149,6 +154,14 @@ void archive_case(Kind kind, const std::vector<uint8_t>& bytes, const std::vecto
 		if ((op == 1 || op == 2 || op == 3 || op == 6 || op == 7) && c.idx >= count && got != "n/a") V_CHECK(got == "err", "per-member call op " << op << " accepted index " << c.idx << " >= count " << count);
 		// extent exactness
 		if (parseAgrees && c.idx < count && got != "err") {
+			if (kind == KVol && op == 7 && L.entries[c.idx].comp != refvol::CompUncompressed) {
+				// compressed member: the expanded bytes are C04's business, but the recorded extent must still lie inside the file
+				uint64_t off = L.entries[c.idx].blockOffset;
+				V_CHECK(off + 8 <= bytes.size() && refvol::tagat(bytes, off, "VBLK"), "compressed member " << c.idx << " extracted although its block header is not inside the file");
+				uint64_t len = refvol::get32(bytes, off + 4) & 0x7FFFFFFFu;
+				V_CHECK(off + 8 + len <= bytes.size(), "compressed member " << c.idx << " extracted although its recorded extent [" << off + 8 << ",+" << len << ") is not inside the " << bytes.size() << "-byte file (delivered short instead of refused)");
+				st.cls("extent_checked_compressed");
+			}
 			if (kind == KVol && (op == 6 || (op == 7 && L.entries[c.idx].comp == refvol::CompUncompressed))) {
 				uint64_t off = L.entries[c.idx].blockOffset;
 				V_CHECK(off + 8 <= bytes.size() && refvol::tagat(bytes, off, "VBLK"), "member " << c.idx << " delivered although its block header is not inside the file");
@@ -185,6 +198,8 @@ std::vector<Call> default_calls(size_t countGuess) {
 	std::vector<Call> cs;
 	cs.push_back({0, 0, ""});
 	for (uint64_t i = 0; i <= countGuess + 1; ++i) for (uint8_t op : {uint8_t(1), uint8_t(2), uint8_t(3), uint8_t(6), uint8_t(7), uint8_t(4), uint8_t(5)}) cs.push_back({op, i, ""});
+	// the same member twice in a row through each pair of access paths (extract/extract, extract/stream, stream/stream)
+	for (uint64_t i = 0; i <= countGuess; ++i) for (uint8_t op : {uint8_t(7), uint8_t(7), uint8_t(6), uint8_t(6), uint8_t(7)}) cs.push_back({op, i, ""});
 	// again from the start: earlier failures must not matter
 	for (uint64_t i = 0; i <= countGuess; ++i) for (uint8_t op : {uint8_t(6), uint8_t(7), uint8_t(1)}) cs.push_back({op, i, ""});
 	cs.push_back({4, 0, "no-such-member"}); cs.push_back({5, 0, "./A.TXT"});
@@ -256,7 +271,7 @@ void run_case(Tape& t, Stats& st) {
 	unsigned nc = unsigned(t.below(24));
 	for (unsigned i = 0; i < nc; ++i) { Call c; c.op = t.u8(); uint8_t ix = t.u8(); c.idx = ix < 200 ? ix % 9 : (ix < 230 ? 0xFFFFFFFFull : ~uint64_t(0) - (ix & 3)); if (t.below(3) == 0) c.name = t.pick<std::string>({"a.txt", "A.TXT", "./a.txt", "b", "nope", "x1", "EDEN11", "eden11", ""}); calls.push_back(c); }
 	auto more = default_calls(6); calls.insert(calls.end(), more.begin(), more.end());
-	if (st.want_sample()) st.sample(std::string("{\"kind\":\"") + (kind == KVol ? "vol" : "clm") + "\",\"seed\":" + std::to_string(which % 5) + ",\"bytes\":" + std::to_string(bytes.size()) + ",\"head\":\"" + hex(bytes, 32) + "\",\"calls\":" + std::to_string(calls.size()) + "}");
+	if (st.want_sample()) st.sample(std::string("{\"kind\":\"") + (kind == KVol ? "vol" : "clm") + "\",\"seed\":" + std::to_string(which % 6) + ",\"bytes\":" + std::to_string(bytes.size()) + ",\"head\":\"" + hex(bytes, 32) + "\",\"calls\":" + std::to_string(calls.size()) + "}");
 	archive_case(kind, bytes, calls, st, "structured");
 }
 
@@ -264,7 +279,7 @@ void run_sweep(Stats& st) {
 	// every proper prefix and every (field x boundary value) substitution of every seed
 	for (unsigned k = 0; k < 2; ++k) {
 		Kind kind = Kind(k);
-		unsigned nseeds = kind == KVol ? 5 : 3;
+		unsigned nseeds = kind == KVol ? 6 : 3;
 		for (unsigned w = 0; w < nseeds; ++w) {
 			std::vector<size_t> fields;
 			std::vector<uint8_t> full = kind == KVol ? vol_seed(w, &fields) : clm_seed(w, &fields);
@@ -309,7 +324,7 @@ void run_sweep(Stats& st) {
 }
 
 void write_seeds(const std::string& dir) {
-	for (unsigned w = 0; w < 5; ++w) { auto b = vol_seed(w); b.insert(b.begin(), uint8_t(0x80 | KVol)); write_file(dir + "/vol" + std::to_string(w), b); }
+	for (unsigned w = 0; w < 6; ++w) { auto b = vol_seed(w); b.insert(b.begin(), uint8_t(0x80 | KVol)); write_file(dir + "/vol" + std::to_string(w), b); }
 	for (unsigned w = 0; w < 3; ++w) { auto b = clm_seed(w); b.insert(b.begin(), uint8_t(0x80 | KClm)); write_file(dir + "/clm" + std::to_string(w), b); }
 	for (unsigned w = 0; w < 6; ++w) { auto b = wav_seed(w); b.insert(b.begin(), uint8_t(0x80 | KWav)); write_file(dir + "/wav" + std::to_string(w), b); }
 }
